@@ -284,7 +284,7 @@ def dumpPacketView (pfx : String) (base : Nat) (p : Packet) (bytes : Bytes) (ful
   o := o ++ dumpInner pfx base p
   if full then
     for k in Kind.all do
-      let typed := k.parse bytes
+      let typed := Fast.kindParse k bytes
       let conv := p.tryAs k
       o := o.push (pfx ++ "typed." ++ kindName k, resP typed)
       o := o.push (pfx ++ "conv." ++ kindName k, resP conv)
@@ -306,7 +306,7 @@ inductive PKind where
 deriving Repr, DecidableEq
 
 def dumpCompound (pfx : String) (d : Bytes) : Out := Id.run do
-  let r := Compound.parse d
+  let r := Fast.compoundParse d
   let mut o : Out := #[(pfx ++ "res", resP r)]
   match r with
   | .ok c =>
@@ -374,7 +374,7 @@ def dumpCustom (pfx : String) (base : Nat) (pt : UInt8) (min : Nat) (d : Bytes) 
 /-- The view dump of PROTOCOL.md §5 for `kind` on `d`, keys prefixed by `pfx`. -/
 def dumpView (pfx : String) (kind : PKind) (d : Bytes) : Out :=
   let typed (k : Kind) : Out :=
-    let r := k.parse d
+    let r := Fast.kindParse k d
     let o : Out := #[(pfx ++ "res", resP r)]
     match r with
     | .ok p => o ++ dumpHeader pfx p.data (paddingOf p) ++ dumpInner pfx 0 p
@@ -406,13 +406,13 @@ def dumpView (pfx : String) (kind : PKind) (d : Bytes) : Out :=
     | .ok u => o ++ dumpHeader pfx u none ++ dumpUnknownView pfx 0 u
     | _ => o
   | .packet =>
-    let r := Packet.parse d
+    let r := Fast.packetParse d
     let o : Out := #[(pfx ++ "res", resP r)]
     -- `typed.unknown`, and the seven `typed.<k>` also when the generic parser refused the bytes
     let tu : Out := #[(pfx ++ "typed.unknown", resP (Unknown.parse d))]
     match r with
     | .ok p => o ++ dumpPacketView pfx 0 p d true ++ tu
-    | .err _ => o ++ (Kind.all.map (fun k => (pfx ++ "typed." ++ kindName k, resP (k.parse d)))).toArray ++ tu
+    | .err _ => o ++ (Kind.all.map (fun k => (pfx ++ "typed." ++ kindName k, resP (Fast.kindParse k d)))).toArray ++ tu
     | .panic => o
   | .compound => dumpCompound pfx d
   | .rb =>
